@@ -23,7 +23,7 @@ func genField(r *hx.Rng) []byte {
 		lens := []int{55, 56, 57, 63, 64, 65, 119, 120}
 		return r.Bytes(lens[r.Intn(len(lens))])
 	case 4:
-		return r.Bytes(hx.N(130, 700) + r.Intn(100))
+		return r.Bytes(hx.N(100, 700) + r.Intn(80))
 	default:
 		return r.Bytes(r.Intn(40))
 	}
@@ -50,12 +50,12 @@ func emitV2(o *hx.Out, seq uint64, src, dest string, ts uint64, ps []v2payload, 
 	if recs == nil {
 		recs = [][]string{}
 	}
-	o.Emit("commit2", []any{hx.U(seq), hx.HS(src), hx.HS(dest), hx.U(ts), recs}, hx.H(channeltypesv2.CommitPacket(pk)), tag)
+	o.Emit("pkt_commit2", []any{hx.U(seq), hx.HS(src), hx.HS(dest), hx.U(ts), recs}, hx.H(channeltypesv2.CommitPacket(pk)), tag)
 }
 
 func emitV1(o *hx.Out, data []byte, seq uint64, sp, sc, dp, dc string, th clienttypes.Height, ts uint64, tag string) {
 	pk := channeltypes.NewPacket(data, seq, sp, sc, dp, dc, th, ts)
-	o.Emit("commit1", []any{hx.U(ts), hx.U(th.RevisionNumber), hx.U(th.RevisionHeight), hx.H(data), hx.U(seq), hx.HS(sp), hx.HS(sc), hx.HS(dp), hx.HS(dc)},
+	o.Emit("pkt_commit1", []any{hx.U(ts), hx.U(th.RevisionNumber), hx.U(th.RevisionHeight), hx.H(data), hx.U(seq), hx.HS(sp), hx.HS(sc), hx.HS(dp), hx.HS(dc)},
 		hx.H(channeltypes.CommitPacket(pk)), tag)
 }
 
@@ -67,11 +67,13 @@ func emitAck2(o *hx.Out, acks [][]byte, tag string) {
 	if hs == nil {
 		hs = []string{}
 	}
-	o.Emit("commit_ack2", hs, hx.H(channeltypesv2.CommitAcknowledgement(channeltypesv2.Acknowledgement{AppAcknowledgements: acks})), tag)
+	o.Emit("ack_commit2", hs, hx.H(channeltypesv2.CommitAcknowledgement(channeltypesv2.Acknowledgement{AppAcknowledgements: acks})), tag)
 }
 
-func famC07(r *hx.Rng, o *hx.Out) {
-	n := hx.N(40, 3000)
+// famC07 is split in three parts which TestFamily interleaves with the other properties' records, so that the
+// SHA-256-heavy cases spread over several Coq evaluation shards.
+func famC07a(r *hx.Rng, o *hx.Out) {
+	n := hx.N(40, 1000)
 
 	// the Gallina SHA-256 against crypto/sha256 around the padding boundaries
 	for _, l := range []int{0, 1, 3, 54, 55, 56, 57, 63, 64, 65, 111, 119, 120, 127, 128, 129, 191, 192, 200, 300} {
@@ -110,9 +112,13 @@ func famC07(r *hx.Rng, o *hx.Out) {
 			emitV1(o, data, seq, "transfer", "channel-0", "transfer", "channel-1", clienttypes.NewHeight(th.RevisionHeight, th.RevisionNumber), ts, "swap-revision-height")
 		}
 		ack := genField(r)
-		o.Emit("commit_ack1", hx.H(ack), hx.H(channeltypes.CommitAcknowledgement(ack)), "ack")
+		o.Emit("ack_commit1", hx.H(ack), hx.H(channeltypes.CommitAcknowledgement(ack)), "ack")
 	}
 
+}
+
+func famC07b(r *hx.Rng, o *hx.Out) {
+	n := hx.N(40, 1000)
 	// v2 packets
 	for i := 0; i < n; i++ {
 		np := 1
@@ -176,6 +182,10 @@ func famC07(r *hx.Rng, o *hx.Out) {
 		}
 	}
 
+}
+
+func famC07c(r *hx.Rng, o *hx.Out) {
+	n := hx.N(40, 1000)
 	// v2 acknowledgements: order and count of the app acknowledgements
 	for i := 0; i < n; i++ {
 		na := r.Intn(5)
